@@ -310,6 +310,91 @@ def check_no_rebuild(ctx: Check, tree: Tree) -> None:
         ctx.ok("R-REBUILD", "src/ampform/dynamics", f"none of the {len(sites)} SymPy node-reconstructing calls in the package receives an expression that may contain {sorted(c.split('::')[-1] for c in carriers)}")
 
 
+def _summand(te, tree: Tree, cls_name: str, over: dict):
+    from ..poly import sym
+
+    fn = tree.func(f"{MOD}::{cls_name}.parametrization")
+    args = [over.get(p, sym(p)) for p in fn.params]
+    res = te.eval_function(fn, args)
+    atom = te.single_atom(res) if isinstance(res, RF) else None
+    info = te.apps.get(atom) if atom is not None else None
+    if info is None or info.cls != "Sum":
+        raise AnalysisError(f"{fn.qual}: does not return Sum(<summand>, (pole_id, 1, n_poles))")
+    return fn, info.args[0], info.args[1]
+
+
+def check_bw_reduction(ctx: Check, tree: Tree) -> None:
+    """Clause (c): for one channel and one pole the K-matrix and the P-vector reduce to the
+    library's own Breit-Wigner functions (the oracle is the library, as the property says).
+
+    With the summands K, P of the parametrisations at i = j, gamma := 1 (K/gamma^2, P/gamma):
+        K/(1 - iK)          == relativistic_breit_wigner(s, m_R, Gamma_R)                   (non-relativistic K)
+        P/(1 - iK)          == beta_R * relativistic_breit_wigner(s, m_R, Gamma_R)          (non-relativistic P)
+        P/(beta (1 - iK))   == relativistic_breit_wigner_with_ff(s, m_R, Gamma_R, m_a, m_b, L, d, phsp)   (relativistic)
+    and for general i, j the K summand is gamma_Ri gamma_Rj sqrt(m_R W_i) sqrt(m_R W_j) / (m_R^2 - s)."""
+    import ast as _ast
+
+    from ..poly import equal, sym
+    from ..terms import TermEval
+
+    D.reset()
+    te = TermEval(tree)
+    one = RF.const(1)
+
+    def ev(fn, text, env):
+        return te.ev(_ast.parse(text, mode="eval").body, env, fn)
+
+    fn_k, k_nr, lim = _summand(te, tree, "NonRelativisticKMatrix", {"j": sym("i")})
+    env = {p: sym(p) for p in fn_k.params}
+    g = ev(fn_k, "residue_constant[pole_id, i]", env)
+    m = ev(fn_k, "pole_position[pole_id]", env)
+    width = ev(fn_k, "pole_width[pole_id, i]", env)
+    bw_fn = tree.func("ampform.dynamics::relativistic_breit_wigner")
+    bwff_fn = tree.func("ampform.dynamics::relativistic_breit_wigner_with_ff")
+    bw = te.eval_function(bw_fn, [sym("s"), m, width])
+    k1 = k_nr / (g * g)
+    ok = equal(k1 / (one - I * k1), bw)
+    ctx.verdict(ok, "R-TERM", f"{fn_k.qual}::breit-wigner-reduction", tree.loc(fn_k.node),
+                "one channel, one pole, gamma = 1: K/(1 - iK) == relativistic_breit_wigner(s, m_R, Gamma_R)", None if ok else {"K": repr(k_nr)[:300]})
+    fn_p, p_nr, _ = _summand(te, tree, "NonRelativisticPVector", {})
+    beta = ev(fn_p, "beta_constant[pole_id]", {p: sym(p) for p in fn_p.params})
+    ok = equal((p_nr / g) / (one - I * k1), beta * bw)
+    ctx.verdict(ok, "R-TERM", f"{fn_p.qual}::breit-wigner-reduction", tree.loc(fn_p.node),
+                "one channel, one pole, gamma = 1: P/(1 - iK) == beta_R * relativistic_breit_wigner(s, m_R, Gamma_R)", None if ok else {"P": repr(p_nr)[:300]})
+    fn_k2, k_r, _ = _summand(te, tree, "RelativisticKMatrix", {"j": sym("i")})
+    env2 = {p: sym(p) for p in fn_k2.params}
+    fn_p2, p_r, _ = _summand(te, tree, "RelativisticPVector", {})
+    k2 = k_r / (g * g)
+    bwff = te.eval_function(bwff_fn, [sym("s"), m, width, ev(fn_k2, "m_a[i]", env2), ev(fn_k2, "m_b[i]", env2), sym("angular_momentum"), sym("meson_radius"), sym("phsp_factor")])
+    ok = equal((p_r / (g * beta)) / (one - I * k2), bwff)
+    ctx.verdict(ok, "R-TERM", f"{fn_p2.qual}::breit-wigner-reduction", tree.loc(fn_p2.node),
+                "one channel, one pole, gamma = beta = 1: P/(1 - iK) with the relativistic K == relativistic_breit_wigner_with_ff(s, m_R, Gamma_R, m_a, m_b, L, d, phsp_factor)",
+                None if ok else {"P": repr(p_r)[:200], "K": repr(k_r)[:200]})
+    # every parametrisation sums over the poles 1..n_poles
+    from ..terms import Tup, vkey
+
+    for cls_name in ("NonRelativisticKMatrix", "RelativisticKMatrix", "NonRelativisticPVector", "RelativisticPVector"):
+        fn, _, limits = _summand(te, tree, cls_name, {})
+        ok = vkey(limits) == vkey(Tup([sym("pole_id"), RF.const(1), sym("n_poles")]))
+        ctx.verdict(ok, "R-TERM", f"{fn.qual}::pole-sum", tree.loc(fn.node), f"{cls_name}.parametrization sums over (pole_id, 1, n_poles)",
+                    None if ok else repr(limits)[:120])
+    # general i, j: the residue structure of the K-matrix
+    specs = {
+        "NonRelativisticKMatrix": ("pole_width[pole_id, {c}]", {}),
+        "RelativisticKMatrix": ("EnergyDependentWidth(s=s, mass0=pole_position[pole_id], gamma0=pole_width[pole_id, {c}], m_a=m_a[{c}], m_b=m_b[{c}], angular_momentum=angular_momentum, meson_radius=meson_radius, phsp_factor=phsp_factor)", {}),
+    }
+    for cls_name, (w, _) in specs.items():
+        fn, got, limits = _summand(te, tree, cls_name, {})
+        e = {p: sym(p) for p in fn.params}
+        spec = ("residue_constant[pole_id, i] * sp.sqrt(pole_position[pole_id] * " + w.format(c="i") + ") * residue_constant[pole_id, j] * sp.sqrt(pole_position[pole_id] * "
+                + w.format(c="j") + ") / (pole_position[pole_id] ** 2 - s)")
+        want = ev(fn, spec, e)
+        ok = equal(got, want)
+        ctx.verdict(ok, "R-TERM", f"{fn.qual}::residue-structure", tree.loc(fn.node),
+                    f"{cls_name}.parametrization summand == gamma_Ri gamma_Rj sqrt(m_R W_Ri) sqrt(m_R W_Rj) / (m_R^2 - s), W = {'Gamma_Ri' if 'Non' in cls_name else 'EnergyDependentWidth of channel i with the forwarded L, d, phsp_factor'}",
+                    None if ok else {"got": repr(got)[:300]})
+
+
 def run(ctx: Check, tree: Tree) -> None:
     ctx.decided += [
         "every (caller, callee, parameter) triple over {phsp_factor, angular_momentum, meson_radius} in ampform.dynamics forwards the caller's value (R-FORWARD)",
@@ -317,7 +402,8 @@ def run(ctx: Check, tree: Tree) -> None:
         "K[i,j] and P[i] are substituted by the library's own parametrisations with matching indices and shared pole symbols (R-WIRING)",
         "no expression that may contain a class with a non-sympified phsp_factor/angular_momentum/meson_radius is passed to a SymPy operation that rebuilds nodes from .args (R-REBUILD)",
     ]
-    ctx.not_decided += ["numerical residual of (1-iK)F - P", "reduction to Breit-Wigner for one channel / one pole"]
+    ctx.decided += ["one channel / one pole: K/(1-iK), P/(1-iK) reduce to the library's relativistic_breit_wigner[_with_ff] as rational-function identities at gamma = 1; residue structure of the K summands for general i, j (R-TERM)"]
+    ctx.not_decided += ["numerical residual of (1-iK)F - P", "the relativistic T-matrix for one channel (|rho| factors: 'something of a Breit-Wigner' in the documentation, no exact claim)"]
     ctx.assumptions += [
         "a callee parameter with a default silently takes that default when not passed (Python call semantics)",
         "SymPy's together/cancel/factor/simplify/expand/cse/rewrite/... reconstruct visited nodes as node.func(*node.args) (table REBUILDERS in sa/rules.py)",
@@ -330,3 +416,4 @@ def run(ctx: Check, tree: Tree) -> None:
     ctx.section(check_memo_advisory, ctx, tree)
     ctx.section(check_cached_matrices_not_mutated, ctx, tree)
     ctx.section(check_no_rebuild, ctx, tree)
+    ctx.section(check_bw_reduction, ctx, tree)
